@@ -222,6 +222,10 @@ fn assumed_pinned_try_send(q: &mut Pin<Box<ZmqFramedWrite>>, item: Message) -> (
 fn assumed_is_broken_pipe(e: &std::io::Error) -> (r: bool)
 { unimplemented!() }
 
+/// the only errors `send` may report: not an I/O error of one connection, not a full buffer of one connection
+pub open spec fn fatal_for_publish(e: ZmqError) -> bool {
+    !(e is Codec && e->Codec_0 is Io) && !(e is BufferFull)
+}
 pub open spec fn is_prefix(p: Seq<u8>, s: Seq<u8>) -> bool { p.len() <= s.len() && p =~= s.subrange(0, p.len() as int) }
 /// RFC 29: the message matches the subscriber iff SOME subscription is a prefix of its first frame
 pub open spec fn matches_any(subs: Seq<Seq<u8>>, first: Seq<u8>) -> bool {
@@ -280,6 +284,8 @@ impl PubSocket {
 //@|            r is Ok ==> forall|k: PeerIdentity| #[trigger] final(self).backend.subscribers@.contains_key(k) ==>
 //@|                old(self).backend.subscribers@.contains_key(k)
 //@|                && delivered_iff(old(self).backend.subscribers@[k], final(self).backend.subscribers@[k], message),
+//@|            // a dead (I/O error) or slow (buffer full) subscriber never makes the publish fail for the others
+//@|            r is Err ==> fatal_for_publish(r->Err_0),
 //@ hint start
 //@|        let ghost t0 = self.backend.subscribers@;
 //@|        let ghost first = first_frame(message);
@@ -411,6 +417,8 @@ impl XPubSocket {
 //@|            r is Ok ==> forall|k: PeerIdentity| #[trigger] final(self).backend.subscribers@.contains_key(k) ==>
 //@|                old(self).backend.subscribers@.contains_key(k)
 //@|                && xdelivered_iff(old(self).backend.subscribers@[k], final(self).backend.subscribers@[k], message),
+//@|            // a dead (I/O error) or slow (buffer full) subscriber never makes the publish fail for the others
+//@|            r is Err ==> fatal_for_publish(r->Err_0),
 //@ hint start
 //@|        let ghost t0 = self.backend.subscribers@;
 //@|        let ghost first = first_frame(message);
